@@ -104,17 +104,31 @@ def d3(run: Run, prog: Program):
         raise AnalysisError("Data.set_window vanished")
     n = 0
     pairs = {}
+    wname = m.params[1] if len(m.params) > 1 else "window"
+    FLIP = {"GtE": "LtE", "LtE": "GtE", "Gt": "Lt", "Lt": "Gt", "Eq": "Eq",
+            "NotEq": "NotEq"}
+
+    def bound_key(e):
+        if isinstance(e, ast.Subscript) and isinstance(e.value, ast.Name) and \
+                e.value.id == wname and isinstance(e.slice, ast.Constant) and \
+                isinstance(e.slice.value, str) and \
+                e.slice.value.endswith(("_min", "_max")):
+            return e.slice.value
+        return None
+    mask_of = {}           # axis -> names of the locals holding the mask
     for c in ast.walk(m.node):
-        if isinstance(c, ast.Compare) and len(c.ops) == 1 and \
-                "window[" in ast.unparse(c.comparators[0]):
-            l = ast.unparse(c.left)
-            r = ast.unparse(c.comparators[0])
-            if not l.startswith("full_"):
-                continue
-            n += 1
-            axis = l[len("full_"):].split("_")[0]
-            kind = "min" if "_min" in r else "max"
-            pairs.setdefault(axis, {})[kind] = (type(c.ops[0]).__name__, c.lineno)
+        if not (isinstance(c, ast.Compare) and len(c.ops) == 1):
+            continue
+        kl, kr = bound_key(c.left), bound_key(c.comparators[0])
+        if (kl is None) == (kr is None):
+            continue            # min == max short-cuts and unrelated tests
+        op = type(c.ops[0]).__name__
+        if kl is not None:      # bound on the left: read it array-first
+            op = FLIP.get(op, op)
+        key = kr or kl
+        n += 1
+        axis, kind = key.rsplit("_", 1)
+        pairs.setdefault(axis, {})[kind] = (op, c.lineno)
     for axis, d in sorted(pairs.items()):
         ok = d.get("min", ("", 0))[0] == "GtE" and d.get("max", ("", 0))[0] == "LtE"
         run.oblige("D3", f"axis:{axis}", ok, sample={"relations": d})
@@ -139,14 +153,33 @@ def d3(run: Run, prog: Program):
     # the stored view is selected with exactly these masks, by fancy indexing
     st = [s for s in ast.walk(m.node) if isinstance(s, ast.Assign)
           and ast.unparse(s.targets[0]) == "self._observable"]
-    ok = len(st) == 1 and ast.unparse(st[0].value).replace(" ", "") == \
-        "self._full_observable[time_indices,:][:,space_indices]"
+    # masks: the locals assigned from the bound comparisons
+    masks = {}
+    for a_ in ast.walk(m.node):
+        if isinstance(a_, ast.Assign) and isinstance(a_.targets[0], ast.Name):
+            keys = {bound_key(x) for c in ast.walk(a_.value) if isinstance(c, ast.Compare)
+                    for x in [c.left] + c.comparators} - {None}
+            for k in keys:
+                masks.setdefault(a_.targets[0].id, set()).add(k.rsplit("_", 1)[0])
+    ok = False
+    if len(st) == 1:
+        v = st[0].value
+        used = set()
+        base = v
+        fancy = True
+        while isinstance(base, ast.Subscript):
+            used |= {x.id for x in ast.walk(base.slice) if isinstance(x, ast.Name)}
+            base = base.value
+        ok = ast.unparse(base) == "self._full_observable" and \
+            {"time"} <= set().union(*[masks.get(u, set()) for u in used] or [set()]) and \
+            {"lat", "lon"} <= set().union(*[masks.get(u, set()) for u in used] or [set()])
     run.oblige("D3", "view-selection", ok, sample={
         "value": ast.unparse(st[0].value) if st else None})
     if not ok:
         run.add("D3", "Data.set_window/view", m.where,
-                "the windowed observable must be `_full_observable[time_indices, :]"
-                "[:, space_indices]` (a copy selected by the two masks)")
+                "the windowed observable must be `_full_observable` indexed by the "
+                "time mask and the space mask built from the window bounds (a copy "
+                "selected by exactly these masks)")
 
 
 def check(run: Run, prog: Program):
